@@ -28,8 +28,25 @@ def gen_family(rng):
     """signatures aimed at the unification machinery: one index joining many physical axes (three co-indexed operands,
     one of them diagonal; an index repeated inside an operand), a summed index tied to output indices by a diagonal
     (Viterbi pointers), and outputs that permute indices along which every operand is constant"""
-    fam = rng.choice(['same3', 'same3', 'repeat', 'tied', 'tied', 'bcast'])
+    fam = rng.choice(['same3', 'same3', 'repeat', 'tied', 'tied', 'bcast', 'alias', 'alias'])
     ty = ('n', rng.choice([2, 3, 3]))
+    if fam == 'alias':
+        # the SAME tensor object (or a transposed view of it, which shares its physical axes) as two operands; index types
+        # with embeddings / products so that no virtual axis need be a bare physical axis
+        ty = PT.gen_type(rng, rng.choice([2, 3, 4]), depth=1)
+        form = rng.choice(['outer', 'mm', 'mmT', 'hadamardT', 'three'])
+        if form == 'outer':
+            inputs, out, alias = [['i'], ['j']], rng.choice([['i', 'j'], ['j', 'i'], ['i'], []]), [(0, 1, 'same')]
+        elif form == 'mm':
+            inputs, out, alias = [['i', 'j'], ['j', 'k']], rng.choice([['i', 'k'], ['k'], ['i', 'j', 'k']]), [(0, 1, 'same')]
+        elif form == 'mmT':
+            inputs, out, alias = [['i', 'j'], ['k', 'j']], rng.choice([['i', 'k'], ['k', 'i']]), [(0, 1, 'same')]
+        elif form == 'hadamardT':
+            inputs, out, alias = [['i', 'j'], ['j', 'i']], rng.choice([['i', 'j'], ['i'], []]), [(0, 1, 'T')]
+        else:
+            inputs, out, alias = [['i', 'j'], ['j', 'k'], ['k', 'l']], rng.choice([['i', 'l'], ['l']]), [(0, 1, 'same'), (0, 2, 'same')]
+        names = sorted({n for lab in inputs for n in lab})
+        return {n: ty for n in names}, inputs, out, {'share': None, 'fam': 'alias', 'alias': alias}
     if fam == 'same3':
         names = ['i', 'j'][:rng.choice([1, 2, 2])]
         inputs = [rng.sample(names, len(names)) for _ in range(3)]
@@ -157,6 +174,12 @@ def drive(args):
                              share=hints['share'][k] if hints['share'] else None, bcast=hints['fam'] == 'bcast')
         c['ops'].append({'ps': st['ps'], 'vs': st['vs'], 'd': st['d'], 'ph': st['ph']})
         ops.append(build_real(st, kind, dtype))
+    for (k1, k2, how) in hints.get('alias', []):
+        if how == 'same':
+            ops[k2], c['ops'][k2] = ops[k1], c['ops'][k1]
+        else:
+            ops[k2] = ops[k1].T
+            c['ops'][k2] = dict(c['ops'][k1], vs=list(reversed(c['ops'][k1]['vs'])))
     c['opdense'] = [to_carrier(p.to_dense(), kind) for p in ops]
     if grad:
         for p in ops:
